@@ -164,96 +164,54 @@ class RegExp:
 
     def test(self, string: str) -> bool:
         """
-        Test if the pattern matches the string.
-
-        Args:
-            string: The string to test
-
-        Returns:
-            True if there's a match, False otherwise
+        Test if the pattern matches the string (same lastIndex protocol as exec).
         """
-        vm = self._create_vm()
-
-        if self._sticky:
-            result = vm.match(string, self.lastIndex)
-            if result:
-                if self._global:
-                    self.lastIndex = (
-                        result.index + len(result[0]) if result[0] else result.index
-                    )
-                return True
-            if self._global:
-                self.lastIndex = 0
-            return False
-
-        result = vm.search(string, self.lastIndex if self._global else 0)
-        if result:
-            if self._global:
-                self.lastIndex = (
-                    result.index + len(result[0]) if result[0] else result.index + 1
-                )
-            return True
-
-        if self._global:
-            self.lastIndex = 0
-        return False
+        return self.exec(string) is not None
 
     def exec(self, string: str) -> Optional[MatchResult]:
         """
-        Execute a search for a match.
+        Execute a search for a match (RegExpBuiltinExec).
 
-        Args:
-            string: The string to search
-
-        Returns:
-            Match array or None if no match
+        A global or sticky regexp starts at lastIndex, sets lastIndex to the end of
+        the match on success and to 0 on failure; a sticky regexp matches only at
+        that position.  Other regexps ignore lastIndex and leave it alone.
         """
         vm = self._create_vm()
+        uses_last_index = self._global or self._sticky
+
+        start_pos = self.lastIndex if uses_last_index else 0
+        limit = _utf16_len(string) if self._unicode else len(string)
+        if start_pos > limit:
+            self.lastIndex = 0
+            return None
 
         # In unicode mode, lastIndex is a UTF-16 index
         # Convert to code point index for internal matching
-        if self._unicode and (self._global or self._sticky):
-            cp_start = _utf16_to_codepoint_index(string, self.lastIndex)
+        if self._unicode and uses_last_index:
+            cp_start = _utf16_to_codepoint_index(string, start_pos)
             if cp_start is None:
                 # Invalid UTF-16 index (e.g., in middle of surrogate pair)
                 self.lastIndex = 0
                 return None
             start_pos = cp_start
-        else:
-            start_pos = self.lastIndex if (self._global or self._sticky) else 0
 
         if self._sticky:
             result = vm.match(string, start_pos)
-            if result:
-                if self._global or self._sticky:
-                    end_cp = (
-                        result.index + len(result[0]) if result[0] else result.index
-                    )
-                    if self._unicode:
-                        self.lastIndex = _codepoint_to_utf16_index(string, end_cp)
-                    else:
-                        self.lastIndex = end_cp
-                return result
-            if self._global or self._sticky:
+        else:
+            result = vm.search(string, start_pos)
+
+        if result is None:
+            if uses_last_index:
                 self.lastIndex = 0
             return None
 
-        result = vm.search(string, start_pos)
-
-        if result:
-            if self._global:
-                end_cp = (
-                    result.index + len(result[0]) if result[0] else result.index + 1
-                )
-                if self._unicode:
-                    self.lastIndex = _codepoint_to_utf16_index(string, end_cp)
-                else:
-                    self.lastIndex = end_cp
-            return result
-
-        if self._global:
-            self.lastIndex = 0
-        return None
+        if uses_last_index:
+            end_cp = result.index + len(result[0])
+            if self._unicode:
+                self.lastIndex = _codepoint_to_utf16_index(string, end_cp)
+            else:
+                self.lastIndex = end_cp
+        return result
 
 
 def match(pattern: str, string: str, flags: str = "") -> Optional[MatchResult]:
